@@ -85,6 +85,21 @@ pub fn catch<T>(f: impl FnOnce() -> T) -> Result<T, ()> {
     std::panic::catch_unwind(std::panic::AssertUnwindSafe(f)).map_err(|_| ())
 }
 
+static LAST_PANIC: Mutex<String> = Mutex::new(String::new());
+
+/// panic hook: remember the message of the last panic (nothing is printed)
+pub fn note_panic(info: &std::panic::PanicHookInfo<'_>) {
+    let msg = info.payload().downcast_ref::<&str>().map(|s| s.to_string()).or_else(|| info.payload().downcast_ref::<String>().cloned()).unwrap_or_default();
+    if let Ok(mut g) = LAST_PANIC.try_lock() {
+        g.clear();
+        g.push_str(&msg);
+    }
+}
+
+pub fn last_panic() -> String {
+    LAST_PANIC.lock().map(|g| g.clone()).unwrap_or_default()
+}
+
 // ---------------------------------------------------------------------------------------------
 // watchdog: a case that does not finish within the cap is reported (hang.txt) and the process exits 3
 
